@@ -97,3 +97,7 @@ Proof.
   intros H. destruct (parsed_roundtrip _ ts e H) as ((f & Hf) & A & B). repeat split; auto.
   eapply parse_closed; eauto. discriminate.
 Qed.
+
+(* after the printer repair: the only restriction left on a synthesised tree is lamokb *)
+Theorem roundtrip_lamok_closed e : validb e = true -> lamokb e = true -> parse (pr e) = ROk (PE (norm e)) [].
+Proof. intros V L. apply roundtrip_closed; auto. apply (lamok_posok (sz e)); auto. Qed.
